@@ -6,3 +6,7 @@ import ZckModel.Compint
 import ZckModel.Pred.C20
 import ZckModel.CompintLemmas
 import ZckModel.Props.C20
+import ZckModel.Range
+import ZckModel.Pred.C10
+import ZckModel.RangeLemmas
+import ZckModel.Props.C10
